@@ -68,7 +68,8 @@ def advance(n):
     return ('final(self).buffers.bytes_consumed == old(self).buffers.bytes_consumed + %s && cells(final(self).buffers.buffers@) =~= %s.skip(%s as int)' % (n, OLDW, n))
 
 
-def unit(root='/repo'):
+def parts():
+    """the Fn lists and contract builders of this unit (also used by unit `virtiofsw_async`, which assumes what is proved here)"""
     SW = "impl<'a, S: BitmapSlice> VirtioFsWriter<'a, S>"
     SWIO = "impl<S: BitmapSlice> io::Write for VirtioFsWriter<'_, S>"
     SR = "impl<S: BitmapSlice> Reader<'_, S>"
@@ -98,11 +99,12 @@ def unit(root='/repo'):
         Fn(V, SW, 'available_bytes', ensures=['cells(self.buffers.buffers@).len() <= usize::MAX ==> r == cells(self.buffers.buffers@).len()'], props=['C04']),
         Fn(V, SW, 'bytes_written', ensures=['r == self.buffers.bytes_consumed'], props=['C04']),
         Fn(V, SW, 'check_available_space',
-           ensures=['r is Ok && cells(self.buffers.buffers@).len() <= usize::MAX ==> len1 + len2 + len3 <= cells(self.buffers.buffers@).len() // [C04.vwriter.space]',
+           ensures=['r is Ok ==> len1 + len2 + len3 <= usize::MAX // [C04.vwriter.space]',
+                    'r is Ok && cells(self.buffers.buffers@).len() <= usize::MAX ==> len1 + len2 + len3 <= cells(self.buffers.buffers@).len() // [C04.vwriter.space]',
                     'cells(self.buffers.buffers@).len() <= usize::MAX && len1 + len2 + len3 > cells(self.buffers.buffers@).len() ==> r is Err // [C04.vwriter.space]'],
            props=['C04'], canary=True),
         tok(Fn(V, SWIO, 'write', ensures=wr_contract('vwrite', 'buf@.len()'), props=['C17'], canary=True,
-               body_resub=[(r'unsafe\s*\{\s*copy_nonoverlapping\((\w+)\.as_ptr\(\),\s*(\w+)\.as_ptr\(\),\s*(\w+)\);\s*\}',
+               body_resub=[(r'unsafe\s*\{(?:\s*//[^\n]*\n)*\s*copy_nonoverlapping\((\w+)\.as_ptr\(\),\s*(\w+)\.as_ptr\(\),\s*(\w+)\);\s*\}',
                             r'vx_copy_to_guest(\1, \2, \3, Tracked(&mut gw));',
                             'raw copy into guest memory -> model call recording the destination range (n bytes at dst)')],
                splices=[('|bufs|', 'closure', "|bufs: &[FileVolatileSlice]| -> (q: io::Result<usize>) ensures q is Ok, q->Ok_0 == minn(buf@.len() as int, fcells(bufs@).len() as int)"),
@@ -186,6 +188,18 @@ def unit(root='/repo'):
     # every IoBuffers entry point that takes the token is declared, so that a writer that reaches the cursor some other way
     # (consume / consume_for_read instead of consume_for_write, mark_used without mark_dirty) still type-checks and fails its contract
     io_ext = [f for f in IO.iobuffers_fns(external=True) if f.name in ('consume', 'consume_for_read', 'consume_for_write', 'mark_dirty', 'mark_used', 'split_at')]
+    io_group = [avail, Fn(T, SIO, 'bytes_consumed', ensures=['r == self.bytes_consumed'], props=['C04'])] + io_ext
+    return dict(writer=writer, reader=reader, io_group=io_group, tok=tok, wr_contract=wr_contract, advance=advance)
+
+
+def as_external(f):
+    """signature + contract only (assumed; proved in the unit that owns the function)"""
+    f.external_body, f.splices, f.body_resub, f.attrs, f.canary = True, [], [], [], False
+    return f
+
+
+def unit(root='/repo'):
+    P = parts()
     items = [
         Raw(IO.MODEL),
         Copy(T, r"struct IoBuffers<'a, S>", prefix='#[verifier::reject_recursive_types(S)]'),
@@ -194,8 +208,8 @@ def unit(root='/repo'):
         Raw(IO.SPEC),
         Raw(MODEL2),
         # proved in unit `iobuffers` (same clause text), assumed here
-        Group("impl<'a, S: BitmapSlice> IoBuffers<'a, S> {", [avail, Fn(T, SIO, 'bytes_consumed', ensures=['r == self.bytes_consumed'], props=['C04'])] + io_ext),
-        Group("impl<'a, S: BitmapSlice> VirtioFsWriter<'a, S> {", writer),
-        Group("impl<'a, S: BitmapSlice> Reader<'a, S> {", reader),
+        Group("impl<'a, S: BitmapSlice> IoBuffers<'a, S> {", P['io_group']),
+        Group("impl<'a, S: BitmapSlice> VirtioFsWriter<'a, S> {", P['writer']),
+        Group("impl<'a, S: BitmapSlice> Reader<'a, S> {", P['reader']),
     ]
     return Unit('virtiofsw', items, preludes=['base.rs'])
